@@ -21,6 +21,7 @@
     (EvalExpr's error path takes the nil-template branch of errFromNode: no position lookup).
 -/
 import SoyVerif.Lemmas.EvalGood
+import SoyVerif.Lemmas.RegistryNames
 
 namespace SoyVerif.Props.C06
 open SoyVerif SoyVerif.Model SoyVerif.Model.Eval
@@ -81,44 +82,6 @@ theorem setGlobals_ok_iff (reg : Registry.Reg) (globals : Frame) :
   simp [setGlobals, List.all_eq_true]
 
 /-! ### Registry.Add keeps template names unique (the invariant behind `posOk`) -/
-
-theorem nodup_snoc (reg : Registry.Reg) (t : Registry.Tmpl) (hn : (reg.map (·.name)).Nodup)
-    (hdup : ¬ (reg.any (fun u => u.name == t.name)) = true) : ((reg ++ [t]).map (·.name)).Nodup := by
-  simp only [List.map_append, List.map_cons, List.map_nil]
-  rw [List.nodup_append]
-  refine ⟨hn, by simp, ?_⟩
-  intro a ha b hb
-  simp only [List.mem_singleton] at hb
-  subst hb
-  intro hab
-  subst hab
-  apply hdup
-  simp only [List.any_eq_true, beq_iff_eq]
-  obtain ⟨u, hu, hname⟩ := List.mem_map.mp ha
-  exact ⟨u, hu, hname⟩
-
-theorem addTemplates_names (fileName text nsName : Bytes) (nsAe : Autoescape) :
-    ∀ (cmds : List Cmd) (prev : Option Cmd) (reg reg' : Registry.Reg),
-      Registry.addTemplates fileName text nsName nsAe cmds prev reg = some reg' →
-      (reg.map (·.name)).Nodup → (reg'.map (·.name)).Nodup := by
-  intro cmds
-  induction cmds with
-  | nil => intro prev reg reg' h hn; simp [Registry.addTemplates] at h; subst h; exact hn
-  | cons c rest ih =>
-    intro prev reg reg' h hn
-    unfold Registry.addTemplates at h
-    split at h
-    · rename_i pos name bpos cmds' ae pr
-      simp only at h
-      split at h
-      all_goals
-        split at h
-        · simp at h
-        · split at h
-          · simp at h
-          · rename_i hdup
-            exact ih _ _ _ h (nodup_snoc _ _ hn hdup)
-    · exact ih _ _ _ h hn
 
 /-- after compiling, no two templates of the registry share a name: `Registry.lookup name` is THE template
     of that name, and the source it carries is the source of its own file -/
